@@ -502,6 +502,13 @@ def check_pop_guard(ctx):
             guarded_all = True
             seen_ev = False
             bad_path = None
+            # ... or a missing key is what the enclosing try expects
+            from .c14 import covering_handlers, catches
+            in_keyerror_try = any(
+                catches(names, 'builtin:KeyError') and not any(
+                    isinstance(x, ast.Raise) for x in ast.walk(h))
+                for h, names in covering_handlers(
+                    prog, f, parent_map(f.node), pc))
             for p in t.paths:
                 for e in p.events:
                     if e.kind == 'call' and e.line == pc.lineno and \
@@ -518,7 +525,7 @@ def check_pop_guard(ctx):
                                             c.expr.comparators[0]) in (
                                                 dtext, dtext + '.keys()')
                             for c in p.conds[:e.nconds])
-                        if not g:
+                        if not g and not in_keyerror_try:
                             guarded_all = False
                             bad_path = p
             if not seen_ev:
@@ -593,10 +600,21 @@ def check_keep_override(ctx):
     ok = False
     for p in t.paths:
         for e in p.events:
-            if e.kind != 'call' or not method_call(e.node, 'append') or \
-                    not e.node.args:
+            if e.kind != 'call' or not e.node.args or not (
+                    method_call(e.node, 'append')
+                    or method_call(e.node, 'extend')):
                 continue
             a0 = t.expand(e.node.args[0])
+            elem_names = ()
+            if method_call(e.node, 'extend'):
+                # lines.extend(<line> for name, value in <file dict>.items())
+                if not (isinstance(a0, (ast.GeneratorExp, ast.ListComp))
+                        and len(a0.generators) == 1
+                        and not a0.generators[0].ifs):
+                    continue
+                elem_names = {x.id for x in ast.walk(a0.generators[0].target)
+                              if isinstance(x, ast.Name)}
+                a0 = a0.elt
             try:
                 segs = merge(segments(a0))
             except Unknown:
@@ -604,14 +622,78 @@ def check_keep_override(ctx):
             if len(segs) >= 3 and isinstance(segs[0], Lit) and not \
                     segs[0].text.lstrip().startswith('#') and isinstance(
                         segs[-1], Lit) and segs[-1].text.endswith('\n') \
-                    and any(isinstance(x, Hole) and 'SYM_e' in x.source
-                            for x in segs):
+                    and any(isinstance(x, Hole) and (
+                        'SYM_e' in x.source or any(
+                            nm in x.source for nm in elem_names))
+                        for x in segs):
                 ok = True
     ctx.ob('C18.KEEP-OVERRIDE', ok, W, f.qual,
            'rules absent from the defaults',
            'are written out uncommented' if ok else
            'rules of the file that are not among the defaults are dropped '
            'or commented out')
+
+
+def _dict_merge_form(prog, t, en, emitted):
+    """effective = dict(E.file_rules); for n, d in E.registered_rules
+    .items(): effective.setdefault(n, d); output <- effective.items()"""
+    def copy_of_file_rules(d):
+        if isinstance(d, ast.Call):
+            if isinstance(d.func, ast.Name) and d.func.id == 'dict' and \
+                    len(d.args) == 1 and not d.keywords:
+                return U(en.expand(d.args[0])).endswith('.file_rules')
+            mc = method_call(d, 'copy')
+            if mc and not d.args:
+                return U(en.expand(mc[0])).endswith('.file_rules')
+        if isinstance(d, ast.Dict) and len(d.keys) == 1 and \
+                d.keys[0] is None:
+            return U(en.expand(d.values[0])).endswith('.file_rules')
+        return False
+    merged = [s_ for s_, d in en.defs.items() if isinstance(d, ast.AST)
+              and copy_of_file_rules(d)]
+    if len(merged) != 1:
+        return False
+    E = merged[0]
+    seen_fill = seen_emit = False
+    for p in t.paths:
+        if p.outcome.kind == 'raise':
+            continue
+        loops = []
+        for c in p.conds:
+            if c.kind != 'loop' or not c.pol:
+                continue
+            sym = [s_ for s_, d in en.defs.items() if isinstance(
+                d, tuple) and d and d[0] == 'elem' and d[1] is c.expr]
+            loops.append((U(en.expand(c.expr)), U(c.expr),
+                          sym[0] if sym else None))
+        for itx, raw, sym in loops:
+            if sym is None:
+                continue
+            if itx.endswith('.registered_rules.items()'):
+                fill = any(
+                    e.kind == 'call' and method_call(e.node, 'setdefault')
+                    and U(method_call(e.node)[0]) == E and len(
+                        e.node.args) == 2 and U(e.node.args[0]) ==
+                    '%s[0]' % sym and U(e.node.args[1]) == '%s[1]' % sym
+                    for e in p.events)
+                if not fill:
+                    return False
+                seen_fill = True
+            elif raw == '%s.items()' % E:
+                if not emitted(p, sym):
+                    return False
+                seen_emit = True
+        # nothing else may change the merged dict
+        for e in p.events:
+            if e.kind == 'store' and isinstance(e.node, ast.Subscript) \
+                    and U(e.node.value) == E:
+                return False
+            if e.kind == 'call':
+                mc = method_call(e.node)
+                if mc and U(mc[0]) == E and mc[1] in (
+                        'update', 'pop', 'clear', 'popitem'):
+                    return False
+    return seen_fill and seen_emit
 
 
 def check_merge(ctx):
@@ -685,6 +767,11 @@ def check_merge(ctx):
                 bad_r = bad_r or p
     ok_f = bad_f is None and n_file > 0
     ok_r = bad_r is None and n_reg > 0
+    if not (ok_f and ok_r):
+        # the same merge spelled on a dict: a copy of the file rules, filled
+        # up with setdefault() from the registered rules, then emitted
+        if _dict_merge_form(prog, t, en, emitted):
+            ok_f = ok_r = True
     ctx.count(len(t.paths))
     ctx.ob('C18.MERGE', ok_f, W, f.qual, 'all file rules',
            'every rule of the operator\'s files is in the output' if ok_f
@@ -763,7 +850,10 @@ def check_redundant(ctx):
 def check_upgrade(ctx):
     prog = ctx.prog
     f = prog.func(GEN + '._upgrade_policies')
-    t = Table(prog, f)
+    from ..dte import inline_helpers
+    t = Table(prog, f, inline=inline_helpers(prog, modules={GEN},
+                                             classes=False),
+              comps=True, max_depth=3)
     W = ctx.where(f.module, f.node)
     pol = f.params[0]
     ok = False
@@ -796,6 +886,101 @@ def check_upgrade(ctx):
            'value from the deprecated name to the new name')
 
 
+def _open_mode(prog, f, call):
+    """'w' / 'r' for a call of the builtin open (io.open), else None."""
+    if not isinstance(call, ast.Call):
+        return None
+    r = prog.resolve(f.module, call.func)
+    if r not in ('builtin:open', 'ext:io.open', 'ext:codecs.open'):
+        return None
+    from ..util import kwarg
+    m = kwarg(call, 'mode', 1)
+    if m is None:
+        return 'r'
+    if isinstance(m, ast.Constant) and isinstance(m.value, str):
+        return 'w' if set(m.value) & set('wax+') else 'r'
+    return 'w'          # a computed mode may truncate
+
+
+def check_read_first(ctx):
+    """A tool that reads the operator's policy files and writes a policy file
+    opens its output (which truncates it) only after the input has been
+    read: the output may be one of the files read (an upgrade in place), and
+    a tool that fails while reading must not leave an emptied file behind."""
+    prog = ctx.prog
+    gen = prog.module(GEN)
+    fns = [f for f in prog.functions.values()
+           if f.module is gen and f.cls is None]
+    # summaries: does the function (transitively, inside the module) open a
+    # file for writing / read the operator's input?
+    summ = {}
+
+    def direct(f):
+        w = r = False
+        for n in walk_no_nested(f.node):
+            if not isinstance(n, ast.Call):
+                continue
+            m = _open_mode(prog, f, n)
+            if m == 'w':
+                w = True
+            elif m == 'r':
+                r = True
+            mc = method_call(n)
+            if mc and mc[1] == 'load_rules':
+                r = True
+        return w, r
+    for f in fns:
+        summ[f.qual] = list(direct(f))
+    changed = True
+    while changed:
+        changed = False
+        for f in fns:
+            for call, g in prog.callees(f):
+                if g.qual in summ and isinstance(call, ast.Call):
+                    for i in (0, 1):
+                        if summ[g.qual][i] and not summ[f.qual][i]:
+                            summ[f.qual][i] = True
+                            changed = True
+    n = 0
+    for f in sorted(fns, key=lambda x: x.qual):
+        if not (summ[f.qual][0] and summ[f.qual][1]):
+            continue
+        t = Table(prog, f, handler_paths=False, max_paths=50000)
+        bad = None
+        for p in t.paths:
+            wrote = None
+            for e in p.events:
+                if e.kind not in ('call', 'maycall', 'with') or \
+                        not isinstance(e.node, ast.Call):
+                    continue
+                x = e.node
+                m = _open_mode(prog, f, x)
+                g = prog.callee_of(f, x)
+                gs = summ.get(g.qual) if g is not None else None
+                mc = method_call(x)
+                is_r = m == 'r' or (mc and mc[1] == 'load_rules') or (
+                    gs is not None and gs[1])
+                is_w = m == 'w' or (gs is not None and gs[0] and not gs[1])
+                if is_r and wrote is not None and bad is None:
+                    bad = (wrote, e)
+                if is_w and wrote is None:
+                    wrote = e
+        n += 1
+        W = ctx.where(f.module, f.node)
+        ctx.ob('C18.READ-FIRST', bad is None, '%s:%d' % (
+            W.split(':')[0], bad[0].line) if bad else W, f.qual,
+            'order of opening the output and reading the input',
+            'the output is opened only after the operator\'s files have '
+            'been read' if bad is None else
+            'the output is opened for writing (line %d: %s) before the '
+            'operator\'s policy is read (line %d: %s): when the output is '
+            'one of the files read, the tool reads back the file it has '
+            'just emptied and the operator\'s rules are lost' % (
+                bad[0].line, U(bad[0].node)[:50], bad[1].line,
+                U(bad[1].node)[:50]))
+    ctx.floor('C18.READ-FIRST', n, 2, 'tools that read and write files')
+
+
 def check(ctx):
     ctx.use(GEN, POLICY)
     ctx.explain('C18 (necessary conditions): provenance of every value '
@@ -820,6 +1005,7 @@ def check(ctx):
     for o in ctx.obligations[no:]:
         o['rule'] = 'C18.REDUNDANT(' + o['rule'] + ')'
     check_upgrade(ctx)
+    check_read_first(ctx)
     # the upgrade tool moves an override to the new name because the
     # enforcer lets an old-name override govern the new policy (C11.TABLE)
     from . import c11
